@@ -659,6 +659,47 @@ def _stmt_texts(mod, fnode):
     return out
 
 
+def _x_slices_consecutive(mod, f):
+    """x_regions[i] == slice(x_startinds[i], x_startinds[i+1], None) for every i, whether the
+    generator runs over indices or over zip(x_startinds[:-1], x_startinds[1:])"""
+    from ..elements import element, NoElement
+    for st in walk_own(f.node):
+        if isinstance(st, ast.Assign) and isinstance(st.targets[0], ast.Name) and st.targets[0].id == "x_regions":
+            v = st.value
+            if isinstance(v, ast.Call) and T(mod, v.func) in ("tuple", "list") and len(v.args) == 1:
+                v = v.args[0]
+            try:
+                el = element(f.node, v)
+            except NoElement:
+                return False
+            whole = True
+            if isinstance(v, (ast.GeneratorExp, ast.ListComp)):
+                it = T(mod, v.generators[0].iter)
+                whole = it in (K("range(len(self.x_startinds)-1)"), K("zip(self.x_startinds[:-1], self.x_startinds[1:])"))
+            return whole and el in ("slice(<self.x_startinds[i]>,<self.x_startinds[1+i]>,None)", "slice(<self.x_startinds[i]>,<self.x_startinds[1+i]>)")
+    return False
+
+
+def _connections_translated(mod, g):
+    """self.connections[region_id] maps every face of the segment's connection table to
+    region_lookup[neighbour], or None where there is no neighbour (dict comprehension form)"""
+    for st in walk_own(g.node):
+        if isinstance(st, ast.Assign) and T(mod, st.targets[0]) == K("self.connections[region_id]") and isinstance(st.value, ast.DictComp) and len(st.value.generators) == 1:
+            dc = st.value
+            gen = dc.generators[0]
+            it = T(mod, inline_temporaries(g.node, gen.iter))
+            if not (isinstance(gen.target, ast.Tuple) and len(gen.target.elts) == 2 and all(isinstance(e, ast.Name) for e in gen.target.elts) and not gen.ifs):
+                return False
+            kname, vname = gen.target.elts[0].id, gen.target.elts[1].id
+            if not (isinstance(dc.key, ast.Name) and dc.key.id == kname):
+                return False
+            val = T(mod, dc.value)
+            forms = (K("None if %s is None else self.region_lookup[%s]" % (vname, vname)), K("self.region_lookup[%s] if %s is not None else None" % (vname, vname)))
+            src_ok = it in (K("equilibrium.regions[eq_reg].connections[i].items()"), K("region.connections[i].items()"))
+            return val in forms and src_ok
+    return False
+
+
 def r3(prog, rep):
     f = prog.func(MESH, "BoutMesh.__init__")
     mod = f.module
@@ -667,7 +708,7 @@ def r3(prog, rep):
     facts = {
         "x sizes are the first region's nx list": has("x_sizes=[0]+list(eq_region0.nx)"),
         "x start indices are their cumulative sum": has("self.x_startinds=numpy.cumsum(x_sizes)"),
-        "x slices are consecutive [x_startinds[i], x_startinds[i+1])": has("slice(self.x_startinds[i],self.x_startinds[i+1],None)", "foriinrange(len(self.x_startinds)-1)"),
+        "x slices are consecutive [x_startinds[i], x_startinds[i+1])": _x_slices_consecutive(mod, f),
         "y slices are consecutive: each region starts where the previous one ended": has("y_total_new=y_total+this_ny", "reg_slice=slice(y_total,y_total_new,None)", "y_total=y_total_new", "y_total=0"),
         "y extents are the regions' ny including their boundary guards": has("this_ny=region.ny(0)"),
         "regions are visited in the equilibrium's region order": has("forregname,regioninself.equilibrium.regions.items():", "y_regions[regname]=reg_slice"),
@@ -682,7 +723,7 @@ def r3(prog, rep):
     st = _stmt_texts(g.module, g.node)
     ok = all(K(x) in st for x in ("forreg_name,eq_reginequilibrium.regions.items():", "foriinrange(eq_reg.nSegments):", "self.region_lookup[(reg_name, i)] = region_number", "region_number=len(regionlist)", "regionlist.append((reg_name,i))"))
     rep.ob("R3", "region numbers enumerate (region, segment) pairs once, in region order", ok, g.site(), "", key="tiling/numbering")
-    ok = K("self.connections[region_id][key]=self.region_lookup[val]") in st
+    ok = K("self.connections[region_id][key]=self.region_lookup[val]") in st or _connections_translated(g.module, g)
     rep.ob("R3", "mesh connections are the equilibrium's connections translated through the same numbering", ok, g.site(), "", key="tiling/connections")
 
 
